@@ -6,6 +6,7 @@ import StoneVerif.Model.Rt.Validate
 import StoneVerif.Model.Rt.Encode
 import StoneVerif.Model.Rt.Decode
 import StoneVerif.Model.Rt.Ir
+import StoneVerif.Model.Rt.Spec
 /-! Protocol handlers of the `rt.*` suites (C04–C08, C10, C13). -/
 open Lean
 namespace Driver.Rt
@@ -384,6 +385,11 @@ def handle (st : State) (op : String) (j : Json) : Except String (State × Json)
     let perms ← permsOf j
     let redact := (jbool j "redact").toOption.getD false
     pure (st, both st fun E => resTo jsonTo (jsonCompatObjEncode E st.env perms redact t v))
+  | "rt.wire" =>
+    let t ← tyOf (← jobj j "ty")
+    let v ← pyValOf (← jobj j "v")
+    pure (st, both st fun E => Json.mkObj [("ok", jsonTo (wire E st.env t v)),
+      ("valid", validB E st.env t v), ("normal", normalB st.env t v)])
   | "rt.dec" =>
     let t ← tyOf (← jobj j "ty")
     let d ← jsonOf (← jobj j "doc")
